@@ -618,6 +618,21 @@ func runC13(c *Ctx) {
 				c.Check(!found, "O5", "MPT", funcKey(commit)+": stops emitting after a failed bind", instrPos(call), "no emission is reachable once commitAllocate failed", "Commit keeps emitting operations after a bind failed ("+pathStr(path)+")")
 			}
 		}
+		// a failed eviction must not drop the operations that follow it: the victims already evicted stay evicted, so
+		// the placement they were evicted for (the pipeline operations later in the list) must still be emitted
+		if ce := method("commitEvict"); ce != nil {
+			for _, call := range instrsIn(commit, isCallToFn(ce)) {
+				h := loopHeaderOf(call.Block())
+				if h == nil {
+					c.Undec("O5", "MPT", funcKey(commit)+": a failed eviction does not end the commit", instrPos(call), "commitEvict is not called from the operations loop")
+					continue
+				}
+				hdr := h.Instrs[0]
+				_, path, found := reachAvoiding([]cfgPos{afterInstr(call)}, isReturn, func(x ssa.Instruction) bool { return x == hdr }, nil)
+				c.Check(!found, "O5", "MPT", funcKey(commit)+": a failed eviction does not end the commit", instrPos(call), "after commitEvict every path goes on with the next operation",
+					"Commit can return right after an eviction (failed or not) without emitting the remaining operations ("+pathStr(path)+"): victims evicted earlier in the list stay evicted while the nomination of the workload they were evicted for is dropped")
+			}
+		}
 		// undo paths: Reverse() only for valid operations
 		for _, fnName := range []string{"undoOperation", "undoEarliestValidOperation"} {
 			fn := method(fnName)
